@@ -13,6 +13,13 @@
 //   - setwrap: an undefined member inside a node that sits under the keyword @set.
 //   - nonabs: members whose key contains ':' without being an absolute IRI
 //     ("_:b", ":x") — json-gold's safe mode lets them pass and ToRDF drops them.
+//   - illtyped / emptyobj / twoparents: documents JSON-LD accepts but entry building
+//     cannot cover (unparsable typed literal, node without content, node with two
+//     parents): no mode may report success.
+//   - every successful merklization is checked for: entry count = facts stated,
+//     every generated fact among the entries, every entry provable under the root;
+//     clean documents are also merklized into caller-supplied trees (fresh, failing
+//     Add, pre-populated).
 //   - emptykey: the member "" under an absolute @vocab (defined; json-gold drops its value).
 //   - every case also reads the document from io.Closer readers (io.NopCloser, a
 //     temporary *os.File, a closer whose Close fails): implementation side only.
@@ -65,6 +72,9 @@ const (
 	extraCtx = `{"lk":"http://look.example/ns#","lkid":"@id","lktype":"@type",
  "lkS":{"@id":"lk:S","@context":{"lkin":"lk:in"}},
  "LkT":{"@id":"lk:T","@context":{"lktp":"lk:tp"}},
+ "lkdate":{"@id":"lk:date","@type":"http://www.w3.org/2001/XMLSchema#dateTime"},
+ "lkbool":{"@id":"lk:bool","@type":"http://www.w3.org/2001/XMLSchema#boolean"},
+ "lkint":{"@id":"lk:int","@type":"http://www.w3.org/2001/XMLSchema#integer"},
  "lknode":"lk:node","lkgraph":{"@id":"lk:graph","@container":"@graph"},"lkjson":{"@id":"lk:json","@type":"@json"},"lknul":null}`
 )
 
@@ -85,11 +95,13 @@ type CaseInput struct {
 	Contexts map[string]json.RawMessage `json:"contexts"` // remote contexts by URL
 	Dropped  []Dropped                  `json:"dropped"`  // undefined in json-gold's sense (generator's knowledge)
 	// members the property text wants rejected although json-gold lets them pass
-	NonAbsolute [][]any  `json:"non_absolute"`
-	Expected    int      `json:"expected_entries"` // entries of the document without Dropped/NonAbsolute; -1 = unknown
-	EmptyKey    []any    `json:"empty_key"`        // a member "" made defined by an absolute @vocab
-	Injected    []string `json:"injected"`         // kinds, for the evidence
-	Sites       []string `json:"sites"`
+	NonAbsolute [][]any       `json:"non_absolute"`
+	Expected    int           `json:"expected_entries"` // entries of the document without Dropped/NonAbsolute; -1 = unknown
+	Facts       []docgen.Fact `json:"facts"`            // facts of the generated base document (each must be an entry)
+	MustFail    string        `json:"must_fail"`        // non-empty: no mode may merklize this document (why)
+	EmptyKey    []any         `json:"empty_key"`        // a member "" made defined by an absolute @vocab
+	Injected    []string      `json:"injected"`         // kinds, for the evidence
+	Sites       []string      `json:"sites"`
 }
 
 type runObs struct {
@@ -100,6 +112,7 @@ type runObs struct {
 	out        mzrun.Outcome
 	root       *big.Int
 	n          int
+	mz         *merklize.Merklizer
 }
 
 type ccase struct {
@@ -293,7 +306,7 @@ func (d *drv) merklizeWith(doc []byte, loaderOpt string, l ld.DocumentLoader, sp
 		}
 	}
 	mz, out := mzrun.Merklize(doc, opts...)
-	r := runObs{opts: opts, spec: spec, out: out, loaderOpt: loaderOpt, defaultNil: d.defaultNil}
+	r := runObs{opts: opts, spec: spec, out: out, loaderOpt: loaderOpt, defaultNil: d.defaultNil, mz: mz}
 	if out.Class == "ok" {
 		r.root = mz.Root().BigInt()
 		r.n = len(mzrun.MapEntries(mz))
@@ -639,10 +652,20 @@ func (d *drv) evalCase(rep *common.Report, in CaseInput) *ccase {
 	// --- documents without undefined members: both modes succeed with equal roots
 	c.su = d.merklize(strB, []string{"safe:false"})
 	ss := d.merklize(strB, []string{"safe:true"})
-	if c.su.out.Class != "ok" {
+	mustFail := in.MustFail != ""
+	if mustFail {
+		// JSON-LD accepts the document, entry building cannot cover it: no mode may report success
+		for _, r := range append(append([]runObs{}, c.runs...), c.su, ss) {
+			if r.out.Class == "ok" {
+				rep.Fail("c15-unmerklizable-accepted", fmt.Sprintf("MerklizeJSONLD %v reports success (%d entries) for a document that cannot be covered (%s): fields are missing from the tree", r.spec, r.n, in.MustFail), in)
+				break
+			}
+		}
+	} else if c.su.out.Class != "ok" {
 		rep.Fail("c15-clean-rejected", "document without undefined members rejected in unsafe mode: "+c.su.out.Msg, in)
 	}
-	if ss.out.Class != "ok" {
+	if mustFail {
+	} else if ss.out.Class != "ok" {
 		rep.Fail("c15-clean-rejected", "document without undefined members rejected in safe mode: "+ss.out.Msg, in)
 	} else if !sameObs(ss, c.su) {
 		rep.Fail("c15-clean-modes-differ", "document without undefined members: roots differ between modes", in)
@@ -659,11 +682,12 @@ func (d *drv) evalCase(rep *common.Report, in CaseInput) *ccase {
 			rep.Fail("c15-safe-accepted-undefined", "safe mode accepted a document with an undefined member at "+pathString(in.Dropped[0].Path), in)
 		}
 	}
-	if len(in.Dropped) == 0 && len(in.NonAbsolute) == 0 && safe.out.Class != "ok" {
+	if len(in.Dropped) == 0 && len(in.NonAbsolute) == 0 && safe.out.Class != "ok" && !mustFail {
 		rep.Fail("c15-safe-rejected-defined", "safe mode rejected a document whose members are all defined: "+safe.out.Msg, in)
 	}
 	// --- unsafe mode: success, exactly the merklization of the document without them
-	if unsafe.out.Class != "ok" {
+	if mustFail {
+	} else if unsafe.out.Class != "ok" {
 		rep.Fail("c15-unsafe-rejected", "unsafe mode rejected: "+unsafe.out.Msg, in)
 	} else if c.su.out.Class == "ok" && !sameObs(unsafe, c.su) {
 		rep.Fail("c15-unsafe-root-differs", "unsafe mode: root differs from the root of the document without the undefined members", in)
@@ -710,6 +734,17 @@ func (d *drv) evalCase(rep *common.Report, in CaseInput) *ccase {
 		rep.Fail("c15-empty-key-dropped", fmt.Sprintf("safe mode accepted the member %q, whose key expands to the absolute IRI of @vocab, and silently dropped its value (%d entries, %d facts): json-gold treats the active property \"\" as 'none'", pathString(in.EmptyKey), ss.n, in.Expected), in)
 	} else if in.Expected >= 0 && len(in.NonAbsolute) == 0 && ss.out.Class == "ok" && ss.n != in.Expected {
 		rep.Fail("c15-field-count", fmt.Sprintf("document states %d facts, safe-mode merklization has %d entries", in.Expected, ss.n), in)
+	} else if in.EmptyKey == nil && len(in.NonAbsolute) == 0 {
+		// --- post-condition of EVERY successful merklization: all fields are in the tree
+		for i, r := range append(append([]runObs{}, c.runs...), c.su, ss) {
+			if !d.postCondition(rep, r, in, i >= len(c.runs) || i == 2) {
+				break
+			}
+		}
+	}
+	// --- caller-supplied trees: an Add that fails must fail the merklization
+	if ss.out.Class == "ok" && ss.n > 0 && !mustFail {
+		d.treeRuns(rep, strB, ss, in)
 	}
 	// --- primitives: root table for the model, Normalize ignores SafeMode
 	c.table = append(c.table, tableRow{})
@@ -736,6 +771,148 @@ func (d *drv) evalCase(rep *common.Report, in CaseInput) *ccase {
 	}
 	rep.Sample(map[string]any{"doc": string(docB), "dropped": in.Dropped, "safe": safe.out.Class, "unsafe": unsafe.out.Class})
 	return c
+}
+
+// postCondition: a successful merklization holds exactly the expected number of
+// entries, every fact of the generated base document is among them, and (proofs =
+// true) every entry has an existence proof with its value under the returned root.
+// Returns false after reporting a failure.
+func (d *drv) postCondition(rep *common.Report, r runObs, in CaseInput, proofs bool) bool {
+	if r.out.Class != "ok" || r.mz == nil {
+		return true
+	}
+	entries := mzrun.MapEntries(r.mz)
+	if in.Expected >= 0 && len(entries) != in.Expected {
+		rep.Fail("c15-field-count", fmt.Sprintf("MerklizeJSONLD %v reports success with %d entries, the document states %d facts", r.spec, len(entries), in.Expected), in)
+		return false
+	}
+	if len(in.Facts) > 0 {
+		have := map[docgen.Fact]int{}
+		for _, v := range entries {
+			have[docgen.Fact{Pattern: docgen.PatternOf(v.Parts), Value: docgen.RenderGoValue(v.Value), Datatype: v.Datatype}]++
+		}
+		for _, f := range in.Facts {
+			if have[f] == 0 {
+				rep.Fail("c15-field-missing", fmt.Sprintf("MerklizeJSONLD %v reports success but the fact %+v of the document is not among the entries", r.spec, f), in)
+				return false
+			}
+			have[f]--
+		}
+	}
+	if !proofs {
+		return true
+	}
+	for _, v := range entries {
+		k, err1 := v.Entry.KeyMtEntry()
+		val, err2 := v.Entry.ValueMtEntry()
+		p, err3 := merklize.Options{}.NewPath(v.Parts...)
+		if err1 != nil || err2 != nil || err3 != nil {
+			rep.Fail("c15-leaf-not-provable", fmt.Sprintf("entry %v of an accepted document does not hash", v.Parts), in)
+			return false
+		}
+		proof, pv, err := r.mz.Proof(context.Background(), p)
+		if err != nil || proof == nil || !proof.Existence || pv == nil || !merkletree.VerifyProof(r.mz.Root(), proof, k, val) {
+			rep.Fail("c15-leaf-not-provable", fmt.Sprintf("MerklizeJSONLD %v reports success but the field %v has no valid existence proof under the returned root", r.spec, v.Parts), in)
+			return false
+		}
+	}
+	return true
+}
+
+// failingTree fails the failAt-th Add (1-based) and behaves like the wrapped tree otherwise.
+type failingTree struct {
+	merklize.MerkleTree
+	mu     sync.Mutex
+	n      int
+	failAt int
+}
+
+func (t *failingTree) Add(ctx context.Context, k, v *big.Int) error {
+	t.mu.Lock()
+	t.n++
+	fail := t.n == t.failAt
+	t.mu.Unlock()
+	if fail {
+		return errors.New("scripted tree: storage unavailable")
+	}
+	return t.MerkleTree.Add(ctx, k, v)
+}
+
+func newTree() merklize.MerkleTree {
+	mt, err := merkletree.NewMerkleTree(context.Background(), memory.NewMemoryStorage(), 40)
+	if err != nil {
+		panic(err)
+	}
+	return merklize.MerkleTreeSQLAdapter(mt)
+}
+
+// treeRuns merklizes the (clean) document into caller-supplied trees: a fresh one,
+// one whose k-th Add fails, one that already holds another value under one of the
+// document's paths.
+func (d *drv) treeRuns(rep *common.Report, docB []byte, ref runObs, in CaseInput) {
+	run := func(t merklize.MerkleTree) runObs {
+		mz, out := mzrun.Merklize(docB, merklize.WithDocumentLoader(d.loader), merklize.WithMerkleTree(t))
+		r := runObs{spec: []string{"caller-tree"}, out: out, mz: mz}
+		if out.Class == "ok" {
+			r.root = mz.Root().BigInt()
+			r.n = len(mzrun.MapEntries(mz))
+		}
+		return r
+	}
+	fresh := run(newTree())
+	rep.Count("tree:fresh:" + fresh.out.Class)
+	if !sameObs(fresh, ref) {
+		rep.Fail("c15-caller-tree-changes-result", "merklizing into a fresh caller-supplied tree differs from the default tree", in)
+	} else if in.EmptyKey == nil && len(in.NonAbsolute) == 0 {
+		d.postCondition(rep, fresh, in, true)
+	}
+	for _, at := range []int{1, 1 + d.hashPick(docB, ref.n)} {
+		r := run(&failingTree{MerkleTree: newTree(), failAt: at})
+		rep.Count("tree:failing-add:" + r.out.Class)
+		if r.out.Class == "ok" {
+			rep.Fail("c15-tree-add-failure-ignored", fmt.Sprintf("MerklizeJSONLD reports success although Add #%d of the caller-supplied tree failed: a field of the document is not in the tree", at), in)
+		}
+	}
+	// a tree that already holds a different value under one of the document's paths
+	var keys []string
+	ents := mzrun.MapEntries(ref.mz)
+	for k := range ents {
+		keys = append(keys, k)
+	}
+	sort.Strings(keys)
+	e := ents[keys[d.hashPick(docB, len(keys))]]
+	k, err1 := e.Entry.KeyMtEntry()
+	v, err2 := e.Entry.ValueMtEntry()
+	if err1 == nil && err2 == nil {
+		t := newTree()
+		other := new(big.Int).Add(v, big.NewInt(1))
+		if err := t.Add(context.Background(), k, other); err == nil {
+			r := run(t)
+			rep.Count("tree:pre-populated:" + r.out.Class)
+			if r.out.Class == "ok" {
+				what := fmt.Sprintf("MerklizeJSONLD reports success into a tree that already holds another value under the path %v", e.Parts)
+				if p, err := (merklize.Options{}).NewPath(e.Parts...); err == nil {
+					if proof, _, err := r.mz.Proof(context.Background(), p); err == nil && proof != nil && !merkletree.VerifyProof(r.mz.Root(), proof, k, v) {
+						what += ": the proof for that field does not hold the document's value"
+					}
+				}
+				rep.Fail("c15-tree-add-failure-ignored", what, in)
+			}
+		}
+	}
+}
+
+// hashPick: a deterministic index in [0,n) derived from the document (cases are
+// evaluated in parallel: the shared PRNG is not used here).
+func (d *drv) hashPick(doc []byte, n int) int {
+	if n <= 0 {
+		return 0
+	}
+	h := 0
+	for _, b := range doc {
+		h = (h*31 + int(b)) & 0x7fffffff
+	}
+	return h % n
 }
 
 // flakyRuns merklizes the document through scripted loaders that fail from the
@@ -1196,7 +1373,7 @@ func (d *drv) genCase(g *docgen.Gen, stream string) (CaseInput, bool) {
 		vocab = "http://vocab.example/"
 	}
 	withExtraContext(obj, vocab)
-	in := CaseInput{Stream: stream, Expected: len(gd.Facts)}
+	in := CaseInput{Stream: stream, Expected: len(gd.Facts), Facts: gd.Facts}
 	if vocab != "" {
 		in.Injected = append(in.Injected, "vocab:"+vocab)
 	}
@@ -1263,6 +1440,58 @@ func (d *drv) genCase(g *docgen.Gen, stream string) (CaseInput, bool) {
 		in.Dropped = append(in.Dropped, Dropped{Path: appendPath(s.path, "lknode", "@set", 0, k), Swallowed: true, Kind: "u-under-set"})
 		in.Injected = append(in.Injected, "u-under-set")
 		in.Sites = append(in.Sites, "undefined@"+s.kind)
+	case "illtyped":
+		// JSON-LD accepts the literal, entry building cannot hash it
+		s := pick()
+		k := []string{"lkdate", "lkbool", "lkint"}[r.Intn(3)]
+		v := ""
+		switch k {
+		case "lkdate":
+			v = []string{"not-a-date", "2020-13-45"}[r.Intn(2)]
+		case "lkbool":
+			v = []string{"maybe", "yes"}[r.Intn(2)]
+		default:
+			v = []string{"twelve", "12abc"}[r.Intn(2)]
+		}
+		if _, has := s.obj[k]; has {
+			return in, false
+		}
+		s.obj[k] = v
+		in.MustFail = "ill-typed literal " + k + "=" + v
+		in.Expected = -1
+		in.Injected = append(in.Injected, "ill-typed:"+k)
+		in.Sites = append(in.Sites, "defined@"+s.kind)
+		if r.Intn(2) == 0 {
+			// in unsafe mode next to an undefined property
+			if dr, _, ok := d.inject(pick(), "u-lit"); ok {
+				for _, p := range dr {
+					in.Dropped = append(in.Dropped, Dropped{Path: p, Kind: "u-lit"})
+				}
+				in.Injected = append(in.Injected, "u-lit")
+			}
+		}
+	case "emptyobj":
+		// a property whose value is a node without content
+		s := pick()
+		if _, has := s.obj["lknode"]; has {
+			return in, false
+		}
+		in.Expected = -1
+		in.Sites = append(in.Sites, "defined@"+s.kind)
+		switch r.Intn(3) {
+		case 0:
+			s.obj["lknode"] = map[string]any{}
+			in.MustFail = "empty node object"
+		case 1:
+			s.obj["lknode"] = []any{map[string]any{}, map[string]any{}}
+			in.MustFail = "array of empty node objects"
+		default:
+			k := d.z()
+			s.obj["lknode"] = map[string]any{k: "only-undefined"}
+			in.Dropped = append(in.Dropped, Dropped{Path: appendPath(s.path, "lknode", k), Kind: "u-only-member"})
+			in.MustFail = "node object whose only member is undefined"
+		}
+		in.Injected = append(in.Injected, "empty-node")
 	case "emptykey":
 		// the key "" expands to the vocabulary IRI itself: defined, one more fact
 		s := pick()
@@ -1649,6 +1878,17 @@ func Run(cfg *common.Config) (*common.Report, error) {
 	gen("setwrap", cfg.Pick(4, 40))
 	gen("nonabs", cfg.Pick(6, 60))
 	gen("emptykey", cfg.Pick(3, 30))
+	gen("illtyped", cfg.Pick(8, 80))
+	gen("emptyobj", cfg.Pick(6, 60))
+	{
+		// nodes with two parents: JSON-LD accepts them, no unique path exists
+		var ins []CaseInput
+		for i := 0; i < cfg.Pick(3, 30); i++ {
+			sd := g.Shared()
+			ins = append(ins, CaseInput{Stream: "twoparents", Doc: sd.Bytes, Expected: -1, MustFail: "node with two parents", Injected: []string{"shared-node"}})
+		}
+		d.evalAll(ins)
+	}
 	d.credentialStream(cfg.Pick(4, 40), nil)
 	return rep, d.writeShards()
 }
